@@ -377,7 +377,7 @@ func c09Targeted(r *proto.Rng) (c09Case, string) {
 	s1, s2 := "\n"+sels[pr[0]]+"\n", "\n"+sels[pr[1]]+"\n"
 	shape := pr[0] + "/" + pr[1]
 	attack := proto.Pick(r, []string{"shared-typename-one-op", "shared-typename-two-ops", "shared-typename-two-types", "alias-concatenation",
-		"typename-like-generated", "fragment-like-generated", "fragment-impl-like-fragment", "nested-abstract-inline", "fragment-or-typename-like-enum", "shortened-name-coincidence"})
+		"typename-like-generated", "fragment-like-generated", "fragment-impl-like-fragment", "nested-abstract-inline", "fragment-or-typename-like-enum", "shortened-name-coincidence", "name-registered-while-converting"})
 	ops := ""
 	switch attack {
 	case "shared-typename-one-op":
@@ -430,6 +430,21 @@ func c09Targeted(r *proto.Rng) (c09Case, string) {
 		if !viaTypename {
 			ops += "fragment Role on User {\n id\n name\n}\n"
 		}
+	case "name-registered-while-converting":
+		// a Go name that gets registered BETWEEN a place's own look-up and its insertion: by its own sub-selection (the
+		// same typename on a field and on a field nested inside it), by a fragment spread inside it that is called
+		// like its auto-generated name, or by an earlier operation's typename equal to a later operation's response type
+		switch r.Intn(3) {
+		case 0:
+			shape = "typename-on-field-and-nested-field"
+			ops = "query Q {\n  # @genqlient(typename: \"U\")\n  user {\n name\n # @genqlient(typename: \"U\")\n friend {\n id\n }\n }\n}\n"
+		case 1:
+			shape = "fragment-called-like-the-enclosing-auto-name"
+			ops = "query Q {\n  user {\n id\n ...QUser\n }\n}\nfragment QUser on User {\n name\n}\n"
+		default:
+			shape = "typename-equals-a-later-response-type"
+			ops = "query A {\n  # @genqlient(typename: \"BResponse\")\n  user {\n id\n }\n}\nquery B {\n  user {\n id\n }\n}\n"
+		}
 	case "shortened-name-coincidence":
 		// `query Get { viewer {…} }` (viewer: CurrentUser) and `query GetViewer { currentUser {…} }` (currentUser: User):
 		// Get+Viewer+CurrentUser and GetViewer+CurrentUser(+User, shortened away) are the same Go name for two GraphQL types
@@ -473,6 +488,9 @@ func c09One(c *Ctx, cs c09Case, key string) {
 		c.Res.Count("outcome:" + cs.Attack + ":rejected: " + errSignature(stripPos(out.Err.Error())))
 	default:
 		c.Res.Count("outcome:" + cs.Attack + ":generated")
+		if cs.Attack == "name-registered-while-converting" {
+			c.Res.Add(proto.Finding{Kind: "violation", Class: "wrong-type-reused", What: "two places that need different Go declarations under one name (" + key + "): generation succeeded, so one of them uses the other's type:\n" + cs.Ops["ops.graphql"], Case: cs})
+		}
 		if cs.Attack == "fragment-or-typename-like-enum" {
 			// the enum Role and a struct Role cannot both be declared: success means one of the two places was given the
 			// other's Go type
